@@ -537,6 +537,108 @@ def liftOp : OpRes → M Val
   | .crash m => stopM (.crash m)
   | .stuck m => stuck m
 
+/-! ### element-wise array arithmetic (`OP_{NEG,ADD,SUB,MUL}_ARR_*`, `OP_MUL_ARR_ARR_*`; shape guards `object_arr_can_add`,
+`object_arr_can_mult` = `Idx.canAdd`, `Idx.canMult` of C12): `-a`, `a + b`, `a - b`, `k * a` (scalar on the LEFT), `a * b`
+(matrix product).  The result is a fresh array of fresh cells; a nil operand raises `nil_pointer`, shapes that do not
+conform raise `wrong_array_size`. -/
+
+def loadVals : List Loc → M (List Val)
+  | [] => pure []
+  | l :: ls => do
+    let v ← load l
+    let r ← loadVals ls
+    pure (v :: r)
+
+/-- fresh cells for a list of element results (the first failing one decides) -/
+def allocRes : List OpRes → M (List Loc)
+  | [] => pure []
+  | r :: rs => do
+    let v ← liftOp r
+    let c ← alloc v
+    let rest ← allocRes rs
+    pure (c :: rest)
+
+def arrObjOf (o : Loc) : M (List Nat × Array Loc) := do
+  match (← load o) with
+  | .arrObj dims elems => pure (dims, elems)
+  | _ => stuck "array reference to a non-array"
+
+/-- the (extent, mult) vector the shape guards of C12 look at (they read the extents only) -/
+def extDv (dims : List Nat) : List (Nat × Nat) := dims.map fun n => (n, 1)
+
+def newArr (dims : List Nat) (cells : List Loc) : M Val := do
+  let o ← alloc (.arrObj dims cells.toArray)
+  pure (.arr (some o))
+
+def arrMap (f : Val → OpRes) (a : Option Loc) : M Val :=
+  match a with
+  | none => throwE .nil_pointer
+  | some o => do
+    let de ← arrObjOf o
+    let vs ← loadVals de.2.toList
+    let cells ← allocRes (vs.map f)
+    newArr de.1 cells
+
+/-- `a + b`, `a - b`: same number of dimensions and the same extents, else `wrong_array_size`; element by element -/
+def arrZip (op : BinOp) (a b : Option Loc) : M Val :=
+  match a, b with
+  | some o1, some o2 => do
+    let de1 ← arrObjOf o1
+    let de2 ← arrObjOf o2
+    if Idx.canAdd (extDv de1.1) (extDv de2.1) then do
+      let v1 ← loadVals de1.2.toList
+      let v2 ← loadVals de2.2.toList
+      let cells ← allocRes (List.zipWith (binop op) v1 v2)
+      newArr de2.1 cells
+    else throwE .wrong_array_size
+  | _, _ => throwE .nil_pointer
+
+def zeroLike : Val → Val
+  | .long _ => .long 0
+  | .float _ => .float (Float32.ofBits 0)
+  | .double _ => .double (Float.ofBits 0)
+  | _ => .int 0
+
+/-- `sum = 0; sum += x_k * y_k` in the element type -/
+def dotRes : Val → List Val → List Val → OpRes
+  | acc, x :: xs, y :: ys =>
+    match binop .mul x y with
+    | .val p =>
+      match binop .add acc p with
+      | .val s => dotRes s xs ys
+      | r => r
+    | r => r
+  | acc, _, _ => .val acc
+
+/-- the entries of the matrix product, row-major: rows of the `r1 × c1` matrix `v1` with columns of the `c1 × c2` matrix `v2` -/
+def matEntries (r1 c1 c2 : Nat) (v1 v2 : List Val) : List OpRes :=
+  let zero := zeroLike (v1.headD (.int 0))
+  (List.range r1).flatMap fun i => (List.range c2).map fun j =>
+    dotRes zero ((v1.drop (i * c1)).take c1) ((List.range c1).map fun k => (v2[k * c2 + j]?).getD zero)
+
+/-- `a * b` on two arrays: both 2-dimensional with columns(a) = rows(b), else `wrong_array_size` -/
+def matMul (a b : Option Loc) : M Val :=
+  match a, b with
+  | some o1, some o2 => do
+    let de1 ← arrObjOf o1
+    let de2 ← arrObjOf o2
+    if Idx.canMult (extDv de1.1) (extDv de2.1) then
+      match de1.1, de2.1 with
+      | [r1, c1], [_, c2] => do
+        let v1 ← loadVals de1.2.toList
+        let v2 ← loadVals de2.2.toList
+        let cells ← allocRes (matEntries r1 c1 c2 v1 v2)
+        newArr [r1, c2] cells
+      | _, _ => stuck "matrix product of arrays that are not 2-dimensional"
+    else throwE .wrong_array_size
+  | _, _ => throwE .nil_pointer
+
+/-- unary operation on a loaded operand: `-a` on an array negates element by element -/
+def unopM (op : UnOp) (va : Val) : M Val :=
+  match op, va with
+  | .neg, .arr a => arrMap (unop .neg) a
+  | _, _ => liftOp (unop op va)
+
 /-- binary operation on two loaded operands; two non-nil enum-record values compare by item -/
 def binopM (op : BinOp) (va vb : Val) : M Val :=
   match op, va, vb with
@@ -548,6 +650,13 @@ def binopM (op : BinOp) (va vb : Val) : M Val :=
     match (← load oa), (← load ob) with
     | .recObj ta _, .recObj tb _ => pure (bool2v (ta != tb))
     | _, _ => stuck "record comparison"
+  | .add, .arr a, .arr b => arrZip .add a b
+  | .sub, .arr a, .arr b => arrZip .sub a b
+  | .mul, .arr a, .arr b => matMul a b
+  | .mul, .int k, .arr b => arrMap (binop .mul (.int k)) b
+  | .mul, .long k, .arr b => arrMap (binop .mul (.long k)) b
+  | .mul, .float k, .arr b => arrMap (binop .mul (.float k)) b
+  | .mul, .double k, .arr b => arrMap (binop .mul (.double k)) b
   | _, _, _ => liftOp (binop op va vb)
 
 def truthy (v : Val) : M Bool :=
@@ -1005,7 +1114,7 @@ def evalE : Nat → Ctx → Env → Expr → M Loc
     | .un op a => do
       let la ← evalE f ctx env a
       let va ← load la
-      let r ← liftOp (unop op va)
+      let r ← unopM op va
       alloc r
     | .bin op a b => do
       let la ← evalE f ctx env a
